@@ -86,6 +86,13 @@ def all_functions(tree):
             if isinstance(n, ast.ClassDef):
                 yield from rec(n.body, prefix + n.name + '.', n)
             elif isinstance(n, (ast.FunctionDef, ast.AsyncFunctionDef)):
+                if cls is not None and n in cls.body and getattr(cls, '_parent', None) is not None:
+                    # helpers introduced after the rules were written: expanded into their callers (pv/inline.py)
+                    from .inline import flat_methods
+                    fm, absorbed = flat_methods(cls)
+                    if n.name in absorbed:
+                        continue
+                    n = fm.get(n.name, n) if isinstance(n, ast.FunctionDef) else n
                 yield prefix + n.name, n, cls
                 yield from rec(n.body, prefix + n.name + '.', cls)
             elif isinstance(n, (ast.If, ast.Try, ast.With, ast.For, ast.While)):
